@@ -611,11 +611,11 @@ def three_idp_histories(thorough):
 def soap_pass_histories():
     """(b'') mixed logouts (front channel, SOAP, front channel): the SOAP IdP answers ok / http error / failure status
     in each of three passes, with and without the third IdP's session information reset (a pass that raises
-    after the SOAP IdP has answered: class 5)"""
+    after the SOAP IdP has answered: class 5; or before it is reached: it has then not answered)"""
     import itertools
 
     cases = []
-    for idps in (["R", "S", "P"], ["P", "SR", "R"], ["S", "R", "P"]):
+    for idps, ri in ((["R", "S", "P"], 2), (["P", "SR", "R"], 2), (["S", "R", "P"], 2), (["R", "P", "S"], 1)):
         si = [i for i, k in enumerate(idps) if k.startswith("S")][0]
         for reset in (False, True):
             for a1, a2, a3 in itertools.product(["ok", "http", "fail"], repeat=3):
@@ -624,8 +624,8 @@ def soap_pass_histories():
 
                 ops = [["Login", 0, i, T0 + 1000, i + 1] for i in range(3)] + [["Login", 1, si, T0 + 1000, 8]]
                 if reset:
-                    ops.append(["Reset", 0, 2])
-                ops += [["StartLogout", 0, None, ans(a1)], ["GetIdentity", 0, [], True], ["Login", 0, 2, T0 + 1000, 4],
+                    ops.append(["Reset", 0, ri])
+                ops += [["StartLogout", 0, None, ans(a1)], ["GetIdentity", 0, [], True], ["Login", 0, ri, T0 + 1000, 4],
                         ["LogoutResponse", {"live": 0}, "addr", True, ans(a2), "R"], ["GetIdentity", 0, [], True],
                         ["LogoutResponse", {"live": 0}, "addr", True, ans(a3), "P"],
                         ["GetIdentity", 0, [], True], ["GetIdentity", 1, [], True]]
